@@ -245,10 +245,14 @@ func (c *ecCtx[P, B, S]) body(suites []ecSuite, fullFor func(su ecSuite, mi int)
 		b := c.base(su, ki, mi)
 		id := fmt.Sprintf("%s/%s/%s/%s", c.name, su.name, keyNames[ki], msgNames[mi])
 		if b.signErr != nil {
-			// a configuration for which the signer refuses to sign: nothing to verify
+			// RFC 6979 signing is delegated to crypto/ecdsa, which supports the NIST curves only: a deterministic suite over
+			// secp256k1 constructs but its signer refuses every message ("where supported" in the property). Nothing to verify.
 			x.Trivial()
 			x.Observe("sign-refused", errStr(b.signErr))
 			c.tal.add("sign-refused:"+su.name, vRefuse)
+			if !(su.det && c.std == nil) {
+				x.Failf("ecdsa/"+c.name+"/sign-refused", "%s: Sign failed: %v", id, b.signErr)
+			}
 			return
 		}
 		if !b.hasV {
